@@ -84,6 +84,22 @@ static LineNumber write_define_hunk(LineWriter& output, const Hunk& hunk, const 
     DefineState define_state = DefineState::Outside;
     auto line_number = static_cast<size_t>(location.line_number);
 
+    // A preprocessor directive must be on a line of its own. Make sure of that even if the line
+    // written before it, or the line which it takes its line ending from, has no newline at all.
+    NewLine last_newline = NewLine::LF;
+
+    auto write_directive = [&](const char* directive, const std::string& symbol, NewLine newline) {
+        if (last_newline == NewLine::None)
+            output << NewLine::LF;
+        output << directive << symbol << (newline == NewLine::None ? NewLine::LF : newline);
+        last_newline = NewLine::LF;
+    };
+
+    auto write_line = [&](const Line& line) {
+        output << line;
+        last_newline = line.newline;
+    };
+
     for (const auto& patch_line : hunk.lines) {
         if (patch_line.operation == ' ') {
             // Trailing context which was ignored due to fuzz may lie past the end of the file.
@@ -94,36 +110,36 @@ static LineNumber write_define_hunk(LineWriter& output, const Hunk& hunk, const 
             const auto& line = lines.at(line_number);
             ++line_number;
             if (define_state != DefineState::Outside) {
-                output << "#endif" << line.newline;
+                write_directive("#endif", "", line.newline);
                 define_state = DefineState::Outside;
             }
-            output << line;
+            write_line(line);
         } else if (patch_line.operation == '+') {
             if (define_state == DefineState::Outside) {
                 define_state = DefineState::InsideIFDEF;
-                output << "#ifdef " << define << patch_line.line.newline;
+                write_directive("#ifdef ", define, patch_line.line.newline);
             } else if (define_state == DefineState::InsideIFNDEF) {
                 define_state = DefineState::InsideELSE;
-                output << "#else" << patch_line.line.newline;
+                write_directive("#else", "", patch_line.line.newline);
             }
-            output << patch_line.line;
+            write_line(patch_line.line);
         } else if (patch_line.operation == '-') {
             const auto& line = lines.at(line_number);
             ++line_number;
 
             if (define_state == DefineState::Outside) {
                 define_state = DefineState::InsideIFNDEF;
-                output << "#ifndef " << define << line.newline;
+                write_directive("#ifndef ", define, line.newline);
             } else if (define_state == DefineState::InsideIFDEF) {
                 define_state = DefineState::InsideELSE;
-                output << "#else" << line.newline;
+                write_directive("#else", "", line.newline);
             }
-            output << line;
+            write_line(line);
         }
     }
 
     if (define_state != DefineState::Outside)
-        output << "#endif" << lines.at(lines.size() - 1).newline;
+        write_directive("#endif", "", lines.empty() ? NewLine::LF : lines.back().newline);
 
     return static_cast<LineNumber>(line_number);
 }
